@@ -97,7 +97,16 @@ CHECKS.update({
              "and every key has an entry in each register; a rejected operation leaves its database unchanged (only the source "
              "of update may have cached data); store=False leaves nothing behind, store=True returns the very same objects "
              "afterwards; copies have the selected keys/parents/indices, deep copies share no object. The model is compared with "
-             "the real objects after every operation of seeded and enumerated histories.",
+             "the real objects after every operation of seeded and enumerated histories. "
+             "A content-binding refinement (origin of every constructed object: record number of an index-addressed file / data set "
+             "name of a name-addressed file / added series / deep copy, and per key the registered record) proves that a read "
+             "returns the record the key was registered for: the invariant is preserved by every operation except rename of a "
+             "not-yet-read series of a name-addressed file (binding_step_partial, binding_run_partial), holds at full strength after "
+             "every history on index-addressed files (binding_run_indexed), getm/get-by-index return objects bound to the "
+             "registered records in selection order (getm_returns_registered), rename moves record and object and nothing else "
+             "(rename_keeps_record), and the unrestricted statement is refuted by kernel-evaluated counter-histories "
+             "(f17_counterexample, f17_swap_counterexample, binding_run_full_false); the binding prediction is compared per "
+             "operation with a dictionary model and with the data the real objects return.",
         note=TB + "Series data and file reading are abstracted (C01). Name resolution is C09's model.",
         ref="4/C08"),
     "C09": dict(
